@@ -919,3 +919,55 @@ def rule_record_skip_siblings(ctx, funcs=("VSread", "VSwrite")):
             ctx.violated("SKIPSIB", key, f.where(line), "`%s` skips (records - 1) x `%s`; the %d sibling copies of this re-positioning skip by `%s`" % (ptr, sz, len(by[major]), major))
     ctx.floor("SKIPSIB", 4, len(sites), "(field-major re-positioning steps in VSread/VSwrite)")
     return len(sites)
+
+
+def rule_cursor_advances_with_use(ctx):
+    """USEADV (C15): the old-style SDS group stores the scales of a data set in one record: a presence byte per dimension, then the
+    values of those dimensions that have any.  hdf_read_ndgs walks that record with a cursor: for a dimension with values it
+    records the cursor as the coordinate variable's `data_offset` and moves the cursor over the values.  Use and advance belong
+    to the same guarded arm — a dimension without values occupies no bytes, so a cursor advanced for it as well points every
+    later scale at the wrong bytes (and a cursor not advanced after a use makes two scales overlap)."""
+    prog = ctx.prog
+    f = prog.func("hdf_read_ndgs")
+    if f is None or not f.raw.get("ast"):
+        ctx.unrecognised("USEADV", "USEADV:hdf_read_ndgs", "-", "hdf_read_ndgs not found")
+        return 0
+    uses, advs = [], []
+
+    def vis(nd, st):
+        if nd[0] != "s":
+            return True
+        inner = [s_ for s_ in st if s_[0] == "if"]
+        arm = None
+        if inner:
+            i = max(k for k, s_ in enumerate(st) if s_[0] == "if")
+            chain = st + [nd]
+            arm = (id(st[i]), chain[i + 1] is st[i][2])
+        for x in walk(nd[1], True):
+            if x[0] == "asg" and x[1] == "=" and (mem_field(x[2]) or (0, 0))[1] == "data_offset" and kind(strip(x[3])) == "var":
+                uses.append((strip(x[3])[1], arm, node_line(nd)))
+            elif x[0] == "asg" and x[1] == "+=" and kind(strip(x[2])) == "var":
+                advs.append((strip(x[2])[1], arm, node_line(nd)))
+        return True
+
+    ast_walk(f.raw["ast"], vis)
+    cursors = {v for v, _a, _l in uses}
+    n = 0
+    for v in sorted(cursors):
+        u_arms = {a for vv, a, _l in uses if vv == v}
+        a_list = [(a, l) for vv, a, l in advs if vv == v]
+        n += 1
+        key = "USEADV:hdf_read_ndgs:%s" % v
+        if not a_list:
+            ctx.violated("USEADV", key, f.where(), "the cursor `%s` is recorded as a data offset but never advanced: all scales would start at the same byte" % v)
+            continue
+        stray = [(a, l) for a, l in a_list if a not in u_arms]
+        missing = [a for a in u_arms if a not in {a2 for a2, _l in a_list}]
+        if stray:
+            ctx.violated("USEADV", key, f.where(stray[0][1]), "the cursor `%s` is advanced outside the guarded arm that records it as a data offset: it also moves for dimensions that have no values in the record" % v)
+        elif missing:
+            ctx.violated("USEADV", key, f.where(), "the cursor `%s` is recorded as a data offset in an arm that does not advance it: the next scale overlaps this one" % v)
+        else:
+            ctx.holds("USEADV", key, f.where(a_list[0][1]), "`%s` is advanced exactly in the arm(s) that record it as a data offset" % v, nontrivial=True)
+    ctx.floor("USEADV", 1, n, "(record cursors stored as data offsets)")
+    return n
